@@ -191,6 +191,10 @@ for _k, _v in EXTRA10.items():
 CLAIMS["C09"] = (CLAIMS["C09"][0] + ", abstract run of critical_path() on a small concrete graph (final state of the result members)", CLAIMS["C09"][1], CLAIMS["C09"][2])
 # after the fifth refactoring round
 EXTRA11 = {
+ "C03": " The scan loop is found by its edge calls when the stack lives in a state object.",
+ "C05": " The sweep boundaries are compared piece by piece ((time, marker) pairs), whether built by melt + replace or from concatenated frames.",
+ "C13": " The stack keeps its root while the root exists; depth / height recurrences defer to the abstract run for other walk protocols.",
+ "C20": " The overlay option table (show_all_edges x only_show_critical_events) is decided on the abstract graph; the opener choice of readers / writers by abstract runs on a .json and a .json.gz path.",
  "C18": " IterationIndexFilter positions are decided by abstract runs on given lists of distinct iterations.",
  "C19": " The artefact agreement is decided by abstract runs of save() and restore_cpgraph() with every file operation hooked (names, modes, archive members, extraction before the first read, members put back).",
 }
